@@ -233,6 +233,8 @@ type apCall struct {
 	restartClass   bool
 	runningAt      bool // reported running (as the engine defines it) when the call was issued
 	stoppedAtFirstEffect bool // ... and no longer so when the call began to take effect (a stop got in between)
+	procFault      string   // the new configuration of a targeted processor cannot be built or opened ("" = it can)
+	targets        []string // processors whose settings the change touches (live-eligible kinds)
 	effects        []apEffect
 	cfgWrites      int
 	overlapped     bool // another plan/apply call was in flight at some time during this call
@@ -518,6 +520,16 @@ func (s *Sim) applyOnce(client string, kind, target string, rev int, allow, open
 			oldCanon = canon(exportable(cur))
 		}
 	}
+	if kind == "proc-rev" || kind == "procs-rev2" {
+		parts := strings.Split(target, ",")
+		call.targets = parts
+		if kind == "procs-rev2" && len(parts) > 2 {
+			call.targets = parts[:2]
+		}
+		if openFail || (kind == "procs-rev2" && len(parts) > 2) {
+			call.procFault = "its Open fails"
+		}
+	}
 	o.ap.inFlight[client] = call
 	o.ap.liveRev = nil
 	o.ap.markOverlap()
@@ -592,6 +604,31 @@ func (o *Oracles) onApplyResult(w *World, st *Stack, c *apCall, planStable bool,
 	if planStable && !c.overlapped && c.planNowDiffers && !stale {
 		if err == nil || len(c.effects) > 0 {
 			w.violate("C16", "stale-plan-applied", fmt.Sprintf("the stored configuration changed between plan and apply, yet apply %q was not refused as stale (result: %q, effects: %v)", c.kind, firstLine(msg), eff))
+			return
+		}
+	}
+	// (c13) C13: "if the new configuration cannot be opened the old one keeps running and the
+	// caller gets the error" - a live-eligible change (single-worker processors of the default
+	// engine) whose new processor cannot be built or opened must fail without stopping the pipeline
+	if c.procFault != "" && len(c.targets) > 0 && w.cfg.Engine == "v1" && c.allow && c.runningAt && !c.stoppedAtFirstEffect && !c.statusMoved && !c.overlapped && !draining(w) && !o.ctl.userStopOK && !o.ctl.stopInFlight() {
+		single := true
+		for _, t := range c.targets {
+			if pc := w.procs[t]; pc == nil || pc.cfg.Workers > 1 {
+				single = false
+			}
+		}
+		stopped := false
+		for _, e := range c.effects {
+			if e.what == "stopwait" || e.what == "stop" {
+				stopped = true
+			}
+		}
+		if single && stopped {
+			w.violate("C13", "unopenable-config-stopped-pipeline", fmt.Sprintf("apply %q changes only settings of live-reconfigurable processors %v and the new configuration cannot be used (%s), yet the pipeline was stopped instead of going on with the old configuration (effects: %v, result: %q)", c.kind, c.targets, c.procFault, eff, firstLine(msg)))
+			return
+		}
+		if single && err == nil {
+			w.violate("C13", "unopenable-config-not-reported", fmt.Sprintf("apply %q: the new configuration of processors %v cannot be used (%s), yet the apply reported success (effects: %v)", c.kind, c.targets, c.procFault, eff))
 			return
 		}
 	}
